@@ -110,6 +110,24 @@ def replay_file(path, workdir, events=False, timeout=600):
         rp = json.load(fh)
     name = "replay-" + os.path.basename(path).replace(".json", "")
     job = {"mode": "replay", "prop": rp["property"], "tier": rp.get("tier", "quick"), "replay": rp, "events": events}
+    if rp.get("mode") == "xtwin":
+        # the same case in two fresh interpreters with the two recorded hash seeds; the failure is a differing answer digest
+        jobs = [(name + "-a", rp["hashseed"], job), (name + "-b", rp["hashseed_b"], dict(job))]
+        done, bad = run_pool(jobs, workdir, timeout, parallel=2)
+        res = []
+        for nm, _, _ in jobs:
+            rr = [r for r in done.get(nm, []) if r.get("type") == "replay"]
+            if not rr or rr[0].get("harness_error"):
+                return rp, {"type": "replay", "harness_error": "xtwin replay worker failed: %s %s" % (bad.get(nm), (rr[0].get("harness_error") if rr else ""))}
+            res.append(rr[0])
+        a, b = res
+        da, db = (a["summary"].get("xdig") or {}).get(rp["xkey"]), (b["summary"].get("xdig") or {}).get(rp["xkey"])
+        out = {"type": "replay", "summary": dict(a["summary"]), "events": a.get("events"), "xtwin": {"a": da, "b": db}}
+        out["summary"]["failures"] = list(a["summary"].get("failures", []))
+        if da != db:
+            out["summary"]["failures"].append({"clause": "hash_seed_independent", "sig": rp["sig"], "step": -1,
+                                               "detail": {"answer": rp["xkey"], "hashseed_a": rp["hashseed"], "digest_a": da, "hashseed_b": rp["hashseed_b"], "digest_b": db}})
+        return rp, out
     done, bad = run_pool([(name, rp["hashseed"], job)], workdir, timeout, parallel=1)
     recs = done.get(name, [])
     for r in recs:
@@ -144,11 +162,16 @@ def check(prop, tier, seed, opts):
 
     jobs = []
     hashseeds = []
+    n_common = int(sc_budget.get("common", 0)) if procs >= 2 else 0
+    common_dir = os.path.join(workdir, "common")
+    os.makedirs(common_dir, exist_ok=True)
     for w in range(procs):
         hs = derive(seed, prop, "hash", w) % (2**32)
         hashseeds.append(hs)
         items = [{"idx": w * runs + i, "runseed": derive(seed, prop, "run", w, i) % (2**53)} for i in range(runs)]
-        job = {"mode": "explore", "prop": prop, "tier": tier, "runs": items, "replay_dir": replay_dir,
+        # hash-seed twin: a few run seeds common to ALL workers; their hash-independent answers (ctx.xanswer) are compared below
+        items = [{"idx": -1 - i, "runseed": derive(seed, prop, "common", i) % (2**53), "common": True} for i in range(n_common)] + items
+        job = {"mode": "explore", "prop": prop, "tier": tier, "runs": items, "replay_dir": replay_dir, "common_dir": common_dir,
                "shrink": not opts.get("noshrink"), "run_timeout": sc_budget.get("run_timeout", 120),
                "shrink_budget": sc_budget.get("shrink_budget", 40)}
         jobs.append((f"w{w:04d}", hs, job))
@@ -212,6 +235,49 @@ def check(prop, tier, seed, opts):
                 known_seen[f["sig"]] += 1
         for rp in r.get("replays", []):
             unknown.setdefault(rp["sig"], []).append(rp)
+
+    # ---- hash-seed twin: answers of the common runs must agree across worker processes ------------------------
+    xcompared = 0
+    xpending = {}
+    byseed = {}
+    for r in runs_rec:
+        if r.get("common") and not r.get("harness_error") and not r.get("timeout"):
+            byseed.setdefault(r["runseed"], []).append(r)
+    hs_of = {name: hs for name, hs, _ in jobs}
+    for runseed, recs in sorted(byseed.items()):
+        keys = sorted({k for r in recs for k in (r.get("xdig") or {})})
+        for k in keys:
+            groups = {}
+            for r in recs:
+                d = (r.get("xdig") or {}).get(k)
+                groups.setdefault(d, []).append(hs_of[r["_worker"]])
+            xcompared += 1
+            if len(groups) > 1:
+                sig = f"{prop}:hash_seed_dependent:{k.split('#')[0]}"
+                if sig in xpending:
+                    continue
+                order = sorted(groups.items(), key=lambda kv: (-len(kv[1]), str(kv[0])))
+                cpath = os.path.join(common_dir, f"{runseed}.case.json")
+                if not os.path.exists(cpath):
+                    continue
+                with open(cpath) as fh:
+                    case = json.load(fh)
+                h1, h2 = order[0][1][0], order[1][1][0]
+                import hashlib as _hl
+
+                path = os.path.join(replay_dir, f"{h1}-{runseed}-x{_hl.sha256(sig.encode()).hexdigest()[:7]}.json")
+                detail = {"answer": k, "hashseeds_by_digest": {str(d): sorted(v)[:6] for d, v in order}, "processes_compared": len(recs)}
+                with open(path, "w") as fh:
+                    json.dump({"property": prop, "clause": "hash_seed_independent", "sig": sig, "detail": detail, "mode": "xtwin",
+                               "hashseed": str(h1), "hashseed_b": str(h2), "xkey": k, "runseed": runseed, "tier": tier, "case": case}, fh, indent=1)
+                xpending[sig] = {"sig": sig, "clause": "hash_seed_independent", "path": path, "detail": detail}
+    kf_x = findings.open_sigs(prop)
+    for sig, rp in sorted(xpending.items()):
+        if sig in kf_x:
+            known_seen[sig] += 1
+        else:
+            unknown.setdefault(sig, []).append(rp)
+    probes["hash_seed_twin_answers_compared"] += xcompared
 
     # ---- known findings ------------------------------------------------------------------------
     kf = findings.open_sigs(prop)
